@@ -8,7 +8,7 @@ from sa.astx import call_name, dotted, src, walk_local
 from sa.effects import accesses, class_accesses
 from sa.selftest import Mutant, Silent
 from sa.source import methods
-from sa.props._lib_b import (check_equality_is_identity, equality_locator_sites, MiniBudget, MiniEval, MiniRaise, check_delayed_call, public_api_effects, lin_cmp, lin_cmp_text, lin_eq, linform, model_class, resolve_locals, Unsupported, clone, _Subst, single_assignment_locals, single_return)
+from sa.props._lib_b import (Normaliser, check_equality_is_identity, equality_locator_sites, MiniBudget, MiniEval, MiniRaise, check_delayed_call, public_api_effects, lin_cmp, lin_cmp_text, lin_eq, linform, model_class, resolve_locals, Unsupported, clone, _Subst, single_assignment_locals, single_return)
 
 PROPERTY = "C09"
 TASK = "internet/task.py"
@@ -255,6 +255,7 @@ def check(ctx):
         ctx.floor("api/no-reordering-from-user-callable", len(seen), 1, "reachable mutations")
     if not sorters:
         sorters = {a.func.split(".")[1] for a in class_accesses(mod, cls, {"calls"}, receivers={"self"}) if _kind(a) == "sort"}
+    NORM = Normaliser(mod, cls, keep=set(sorters))
     with ctx.section("sorter"):
         # ---- the sorter: ascending by scheduled time, stable, in place ------------------------------------
         ctx.check(bool(sorters), "sort/ascending-stable", C, "no method sorts `calls`")
@@ -298,7 +299,9 @@ def check(ctx):
 
     with ctx.section("callLater"):
         # ---- callLater ------------------------------------------------------------------------------------
-        f = ctx.func(TASK, "Clock.callLater")
+        f, understood, vnotes = NORM.view(ctx.func(TASK, "Clock.callLater"))
+        for n_ in vnotes:
+            ctx.note("callLater: " + n_)
         q = C + ".callLater"
         g = ctx.cfg(f)
         ctors = [c for c in ast.walk(f) if isinstance(c, ast.Call) and (dotted(c.func) or "").split(".")[-1] == "DelayedCall"]
@@ -332,6 +335,8 @@ def check(ctx):
             apps = g.find(lambda x: isinstance(x, ast.Call) and isinstance(x.func, ast.Attribute) and x.func.attr == "append" and _self_attr(resolve_locals(f, x.func.value), "calls")
                           and len(x.args) == 1 and ((local and src(x.args[0]) == local) or x.args[0] is c))
             wit = g.must_pass(g.ids_of(c), apps, exc=False)
+            if not apps and not understood:
+                ctx.need(False, "the append to `calls` in callLater (a private helper it calls could not be read as inlined)")
             ctx.check(bool(apps) and wit is None, "callLater/scheduled", q, "the new call is not appended to `calls` on every path: it never runs",
                       witness=g.describe(wit))
             rets = [s for s in ast.walk(f) if isinstance(s, ast.Return)]
@@ -364,7 +369,9 @@ def check(ctx):
 
     with ctx.section("advance"):
         # ---- advance ---------------------------------------------------------------------------------------
-        f = ctx.func(TASK, "Clock.advance")
+        f, understood, vnotes = NORM.view(ctx.func(TASK, "Clock.advance"))
+        for n_ in vnotes:
+            ctx.note("advance: " + n_)
         q = C + ".advance"
         g = ctx.cfg(f)
         prm = [x.arg for x in f.args.args][1:]
@@ -404,6 +411,8 @@ def check(ctx):
         acc = accesses(f, "Clock.advance", {"calls"}, {"self"})
         pops = [n for a_ in acc if a_.kind in ("pop_first", "pop_last", "pop_key") or (a_.kind == "delitem" and src(a_.node).endswith("[0]"))
                 for n in g.ids_of(a_.node)]
+        if not pops and not understood:
+            ctx.need(False, "the removal of the head of `calls` in advance (a private helper it calls could not be read as inlined)")
         ctx.check(len(pops) == 1, "advance/takes-head", q, f"{len(pops)} sites take a call out of `calls` (exactly one expected)")
         outs = g.find(lambda x: isinstance(x, ast.Call) and isinstance(x.func, ast.Attribute) and x.func.attr == "func")
         sorts = g.find(lambda x: _is_sort_call(x, sorters))
@@ -692,4 +701,24 @@ MUTANTS += [
 SILENT += [
     Silent("delayed-call-identity-equality-spelled-out", BASE, _DC_LT,
            "    def __eq__(self, other: object) -> bool:\n        return self is other\n\n    __hash__ = object.__hash__\n\n" + _DC_LT),
+]
+
+_GEN = ("    def _due(self):\n        while self.calls and self.calls[0].getTime() <= self.seconds():\n            yield self.calls.pop(0)\n\n"
+        "    def _run(self, item):\n        item.called = 1\n        item.func(*item.args, **item.kw)\n\n")
+_PUMP_DEF = "    def pump(self, timings: Iterable[float]) -> None:"
+_ADV_GEN = "        self.rightNow += amount\n        self._sortCalls()\n        for call in self._due():\n            self._run(call)\n            self._sortCalls()\n"
+SILENT += [
+    # due calls produced one at a time by a private generator, marking + invoking in a private helper, append-then-sort in a helper
+    Silent("generator-of-due-calls", TASK, _ADV, _ADV_GEN,
+           more=[(TASK, _PUMP_DEF, _GEN + _PUMP_DEF),
+                 (TASK, "        self.calls.append(dc)\n        self._sortCalls()\n        return dc", "        self._track(dc)\n        return dc\n\n    def _track(self, item):\n        self.calls.append(item)\n        self._sortCalls()")]),
+]
+MUTANTS += [
+    # the same violations must be seen THROUGH the generator / helper
+    Mutant("generator-pops-from-the-back", TASK, _ADV, _ADV_GEN, expect_rule="calls/ownership", more=[(TASK, _PUMP_DEF, _GEN.replace("self.calls.pop(0)", "self.calls.pop()") + _PUMP_DEF)]),
+    Mutant("generator-strict-boundary", TASK, _ADV, _ADV_GEN, expect_rule="advance/loop-boundary", more=[(TASK, _PUMP_DEF, _GEN.replace("<= self.seconds()", "< self.seconds()") + _PUMP_DEF)]),
+    Mutant("helper-calls-before-marking", TASK, _ADV, _ADV_GEN, expect_rule="advance/called-before-call",
+           more=[(TASK, _PUMP_DEF, _GEN.replace("        item.called = 1\n        item.func(*item.args, **item.kw)\n", "        item.func(*item.args, **item.kw)\n        item.called = 1\n") + _PUMP_DEF)]),
+    Mutant("generator-loop-without-resort", TASK, _ADV, _ADV_GEN.replace("            self._run(call)\n            self._sortCalls()\n", "            self._run(call)\n"),
+           expect_rule="advance/resorted-after-call", more=[(TASK, _PUMP_DEF, _GEN + _PUMP_DEF)]),
 ]
